@@ -5,6 +5,6 @@ From Coq Require Extraction.
 From Coq Require Import ExtrOcamlBasic.
 From PM Require Import Model.EntryBase Model.EntryStr Model.EntryOps Model.EntryDocs.
 
-Definition entries : list (str * (pyval -> pyval)) := entries_str ++ entries_ops ++ entries_images ++ entries_docs ++ entries_docs2 ++ entries_ci ++ entries_ti ++ entries_cs ++ entries_variants.
+Definition entries : list (str * (pyval -> pyval)) := entries_str ++ entries_ops ++ entries_images ++ entries_docs ++ entries_docs2 ++ entries_ci ++ entries_ti ++ entries_cs ++ entries_dir ++ entries_variants.
 
 Extraction "../runner/model.ml" entries.
